@@ -138,6 +138,98 @@ def hasRef (k : Char) : List (Tok × Str) → Bool
   | (.ref k' _ _, _) :: rest => k' == k || hasRef k rest
   | _ :: rest => hasRef k rest
 
+/-! ### string literals (F01b repaired): token sequences with literals, and their layouts -/
+
+/-- a string literal token: quote kind, body, and the gap after it -/
+structure Lit where
+  q : Char
+  body : Str
+  gap : Str := []
+  deriving DecidableEq, Repr, Inhabited
+
+def Lit.src (l : Lit) : Str := l.q :: (l.body ++ [l.q])
+
+/-- the body does not close the literal: no unescaped quote of the literal's kind, no pending backslash at its end;
+    `esc`: the previous character is an unescaped backslash -/
+def bodyOk (q : Char) : Bool → Str → Bool
+  | esc, [] => !esc
+  | true, _ :: t => bodyOk q false t
+  | false, c :: t => c != q && bodyOk q (c == '\\') t
+
+/-- a literal the scanner (and Python's tokenizer) reads as one literal; its gap is blanks -/
+def Lit.ok (l : Lit) : Bool := isQuote l.q && bodyOk l.q false l.body && l.gap.all isBlank
+
+/-- a text with literals: the text before the first literal, then each literal with the text after it -/
+def renderSegs (head : Str) : List (Lit × Str) → Str
+  | [] => head
+  | (l, x) :: r => head ++ (l.src ++ renderSegs x r)
+
+def noQuote (x : Str) : Bool := !x.any isQuote
+
+/-- a token sequence with string literals: a run of other tokens, then each literal with the run after it.
+    (`Tok.other` still accepts any lexeme; in an `LToks` the literals are the `Lit`s and the runs are quote-free.) -/
+structure LToks where
+  head : List (Tok × Str)
+  tail : List (Lit × List (Tok × Str))
+  deriving DecidableEq, Repr, Inhabited
+
+/-- the texts after the literals, for a rendering `f` of the runs: the literal's gap, then the run -/
+def LToks.segs (f : List (Tok × Str) → Str) (m : LToks) : List (Lit × Str) :=
+  m.tail.map fun p => (p.1, p.1.gap ++ f p.2)
+
+/-- a layout of a token sequence with literals -/
+def renderL (m : LToks) : Str := renderSegs (render m.head) (m.segs render)
+
+/-- the translated layout: every run is translated, the literals stay -/
+def renderPyL (m : LToks) : Str :=
+  renderSegs (renderPy (m.head.map pad)) (m.segs fun ts => renderPy (ts.map pad))
+
+def LToks.map (fn : Tok → Tok) (m : LToks) : LToks :=
+  { head := mapToks fn m.head, tail := m.tail.map fun p => (p.1, mapToks fn p.2) }
+
+def LToks.runs (m : LToks) : List (List (Tok × Str)) := m.head :: m.tail.map (·.2)
+def LToks.lits (m : LToks) : List Lit := m.tail.map (·.1)
+
+/-- the string literals of a token sequence, as the scanner reports them -/
+def LToks.litPieces (m : LToks) : List Piece := m.lits.map fun l => .lit l.q l.body true
+
+def noQuoteToks (ts : List (Tok × Str)) : Bool := ts.all fun p => noQuote p.1.src && noQuote p.2
+
+/-- literals are literals, runs contain no quote character -/
+def LToks.shape (m : LToks) : Bool := m.runs.all noQuoteToks && m.lits.all Lit.ok
+
+/-- hypotheses of `getExpressionL_layout`: `wfToks` for every run — **nothing** is asked of the literal bodies -/
+def wfL (m : LToks) : Bool := m.shape && m.runs.all wfToks
+
+def hasRefL (k : Char) (m : LToks) : Bool := m.runs.any (hasRef k)
+
+/-- hypotheses of `escapeKindL_layout`: `okFor` for every run — **nothing** is asked of the literal bodies -/
+def okForL (k : Char) (suf : Str) (m : LToks) : Bool := m.shape && m.runs.all (okFor k suf false)
+
+/-- one flat item of a matcher: a token or a literal, each with its gap -/
+inductive LItem
+  | tok (t : Tok) (g : Str)
+  | lit (l : Lit)
+  deriving DecidableEq, Repr, Inhabited
+
+/-- group a flat sequence into runs and literals -/
+def group : List LItem → LToks
+  | [] => { head := [], tail := [] }
+  | .tok t g :: r => let m := group r; { m with head := (t, g) :: m.head }
+  | .lit l :: r => let m := group r; { head := [], tail := (l, m.head) :: m.tail }
+
+def ungroupTail : List (Lit × List (Tok × Str)) → List LItem
+  | [] => []
+  | (l, ts) :: r => .lit l :: (ts.map fun p => LItem.tok p.1 p.2) ++ ungroupTail r
+
+def ungroup (m : LToks) : List LItem := (m.head.map fun p => LItem.tok p.1 p.2) ++ ungroupTail m.tail
+
+/-- the text of a flat sequence -/
+def renderItems : List LItem → Str
+  | [] => []
+  | .tok t g :: r => t.src ++ g ++ renderItems r
+  | .lit l :: r => l.src ++ l.gap ++ renderItems r
+
 /-! ### `eval()` splicing -/
 
 /-- one `eval( name )` occurrence with its layout: the text before it, the white space between `eval` and `(`,
